@@ -2,7 +2,7 @@
 import itertools
 import random
 
-from vlib.par import pmap
+from vlib.par import pmap, timeout_failure
 
 PROPERTY = 'C15'
 LEVEL = 'other'
@@ -122,6 +122,8 @@ def _check_table(table):
         if w != table[f][t] or type(w) is not type(table[f][t]):
             fail('wrong-weight', f"reports weight {w!r} for pair ({f},{t}) whose weight is {table[f][t]!r}")
             break
+    if fails:
+        return fails        # the result is already invalid: totals are meaningless
     if all(w is not None for row in table for w in row):
         if len(res) != min(n, m):
             fail('not-maximum', f"pairs {len(res)} items, {min(n, m)} are possible")
@@ -145,7 +147,7 @@ def bounded(tier, seed, repo_root):
         shape = rnd.choice([(2, 3), (3, 2), (3, 3), (2, 5), (4, 4), (3, 4)])
         vals = rnd.choice([VALUES, VALUES + [None], [0, 1, 2, 3, 5, 8], [True, False], [0.5, 1.5, 2.0, 0.0], [-3, -1, 0, 2, None]])
         tables.append([[rnd.choice(vals) for _ in range(shape[1])] for _ in range(shape[0])])
-    res = pmap(_check_table, tables, repo_root)
+    res = pmap(_check_table, tables, repo_root, job_timeout=60, on_timeout=timeout_failure('C15'))
     fails = [f for fs in res for f in fs]
     return [{
         'name': 'C15.brute-force', 'bound': f"all tables of shape 1x1..2x2 over {small_vals!r} (exhaustive) + {n_s} seeded tables of "
